@@ -1,6 +1,7 @@
 package main
 
 import (
+	"encoding/json"
 	"fmt"
 	"os"
 	"os/exec"
@@ -99,6 +100,20 @@ func (cr *concRun) finish(kind string, replay map[string]any, linTimeout time.Du
 			hist = hist[:400]
 		}
 		replay["history"] = hist
+		var ops []*cOp
+		for _, o := range h.sorted() {
+			o.PubT, o.OutT = nil, nil
+			for _, m := range o.Pub {
+				o.PubT = append(o.PubT, m.T)
+			}
+			for _, m := range o.Out {
+				o.OutT = append(o.OutT, m.T)
+			}
+			ops = append(ops, o)
+		}
+		if len(ops) <= 400 {
+			replay["ops"] = ops
+		}
 		replay["dir_listing"] = dirListing(cr.dir)
 		cr.rep.Report(Violation{Property: "C08", Sig: "concmon|" + f.Sig, What: f.What, Replay: replay})
 	}
@@ -881,18 +896,70 @@ func runScenario(cfg *RunCfg, rep *Reporter, cov *Cov, idx int, sc ctrlScenario,
 // ---------------------------------------------------------------------------------------
 // engine
 
+// runSharded runs the engine in nShards child processes (the hook handler is process-global, so
+// parallelism needs processes) and merges their coverage and findings.
+func runSharded(cfg *RunCfg, rep *Reporter, cov *Cov, nShards int) {
+	results := make([]shardResult, nShards)
+	errs := make([]error, nShards)
+	parallel(nShards, nShards, func(i int) {
+		args := []string{"check", "-property", cfg.Property, "-tier", cfg.Tier, "-seed", strconv.FormatInt(cfg.Seed, 10), "-findings", cfg.Findings,
+			"-replays", cfg.Replays, "-scale", strconv.FormatFloat(cfg.Scale, 'f', -1, 64), "-shard", strconv.Itoa(i), "-shards", strconv.Itoa(nShards)}
+		cmd := exec.Command(cfg.Self, args...)
+		cmd.Stderr = os.Stderr
+		out, err := cmd.Output()
+		if err != nil {
+			errs[i] = err
+			return
+		}
+		for _, ln := range strings.Split(string(out), "\n") {
+			if strings.HasPrefix(ln, "SHARD-RESULT ") {
+				if jerr := json.Unmarshal([]byte(strings.TrimPrefix(ln, "SHARD-RESULT ")), &results[i]); jerr != nil {
+					errs[i] = jerr
+				}
+				return
+			}
+		}
+		errs[i] = fmt.Errorf("shard %d produced no result", i)
+	})
+	for i := range results {
+		if errs[i] != nil {
+			// a shard that died (runtime-fatal error in klevdb, or a harness fault) must not be read as "held"
+			fmt.Printf("SHARD-FAILED property=%s shard=%d: %v\n", cfg.Property, i, errs[i])
+			rep.Report(Violation{Property: cfg.Property, Sig: "concmon|shard-died", What: fmt.Sprintf("shard process %d of the concurrency engine died: %v (see stderr above for the Go runtime's report)", i, errs[i])})
+			continue
+		}
+		mergeShard(rep, cov, results[i])
+	}
+}
+
+func mine(cfg *RunCfg, idx int) bool {
+	return cfg.Shards <= 1 || idx%cfg.Shards == cfg.Shard
+}
+
 func runC08(cfg *RunCfg, rep *Reporter, cov *Cov, ev *Evidence) {
+	if cfg.Shards == 0 {
+		runSharded(cfg, rep, cov, 8)
+		fillC08Evidence(cfg, rep, cov, ev)
+		return
+	}
+	phases := os.Getenv("VERIF_C08_PHASES") // debugging aid: "ctrl", "perturb", "stress" or any combination
+	on := func(p string) bool { return phases == "" || strings.Contains(phases, p) }
 	alpha := ctrlAlphabet()
 	scs := enumerateScenarios(cfg.Tier, cfg.Seed, cfg.Scale)
 	for i, sc := range scs {
-		runScenario(cfg, rep, cov, i, sc, alpha)
+		if mine(cfg, i) && on("ctrl") {
+			runScenario(cfg, rep, cov, i, sc, alpha)
+		}
 	}
-	nh := 250
+	nh := 1200
 	if cfg.Tier == "thorough" {
-		nh = 12000
+		nh = 16000
 	}
 	nh = int(float64(nh) * cfg.Scale)
 	for i := 0; i < nh; i++ {
+		if !mine(cfg, i) || !on("perturb") {
+			continue
+		}
 		r := NewRand(cfg.Seed, 77, int64(i))
 		opts := OpenOpts{KeyIndex: true, TimeIdx: i%3 != 0, Rollover: pick(r, []int64{150, 300, 600, 5000}), KeepVer: i%2 == 0, AutoSync: i%5 == 0, NewVer: pick(r, []int{2, 2, 1})}
 		cr := newConcRun(cfg, rep, cov, fmt.Sprintf("p%d", i), opts)
@@ -907,16 +974,28 @@ func runC08(cfg *RunCfg, rep *Reporter, cov *Cov, ev *Evidence) {
 		nham = 12
 	}
 	for i := 0; i < nham; i++ {
-		runChild(cfg, rep, cov, "hammer", i)
+		if mine(cfg, i) && on("stress") {
+			runChild(cfg, rep, cov, "hammer", i)
+		}
 	}
 	nfol := 3
 	if cfg.Tier == "thorough" {
 		nfol = 20
 	}
 	for i := 0; i < nfol; i++ {
-		runChild(cfg, rep, cov, "follow", i)
+		if mine(cfg, i+3) && on("stress") {
+			runChild(cfg, rep, cov, "follow", i)
+		}
 	}
 	finishRace(cfg, rep, cov, ev, "C08")
+}
+
+func fillC08Evidence(cfg *RunCfg, rep *Reporter, cov *Cov, ev *Evidence) {
+	ev.Coverage["race_detector_enabled"] = raceEnabled()
+	ev.Coverage["race_reports_raw"] = cov.Get("race.raw")
+	ev.Coverage["race_reports_without_klevdb_frame"] = cov.Get("race.harness")
+	ev.Coverage["race_reports_distinct"] = int64(cov.SetSize("race.distinct"))
+	ev.Coverage["shards"] = 8
 	ev.Coverage["follow_runs"] = cov.Get("follow.runs")
 	ev.Coverage["follow_publishes"] = cov.Get("follow.publishes")
 	ev.Coverage["follow_consume_calls"] = cov.Get("follow.consumes")
@@ -948,6 +1027,8 @@ func finishRace(cfg *RunCfg, rep *Reporter, cov *Cov, ev *Evidence, prop string)
 		rep.Inconclusive("binary built without -race")
 	}
 	reports := readRaceLogs()
+	cov.Add("race.raw", int64(len(reports)+harnessRaces))
+	cov.Add("race.harness", int64(harnessRaces))
 	ev.Coverage["race_reports_raw"] = len(reports) + harnessRaces
 	ev.Coverage["race_reports_without_klevdb_frame"] = harnessRaces
 	if harnessRaces > 0 {
@@ -959,6 +1040,7 @@ func finishRace(cfg *RunCfg, rep *Reporter, cov *Cov, ev *Evidence, prop string)
 			continue
 		}
 		seen[rr.frames] = true
+		cov.Distinct("race.distinct", rr.frames)
 		rep.Report(Violation{Property: prop, Sig: "concmon|race|" + rr.frames, What: "data race reported by the Go race detector between " + rr.frames, Detail: rr.text, Replay: map[string]any{"seed": cfg.Seed, "report": rr.text}})
 	}
 	ev.Coverage["race_reports_distinct"] = len(seen)
@@ -1156,7 +1238,7 @@ func runFollow(cfg *RunCfg, rep *Reporter, cov *Cov, idx int) {
 	}
 	defer cr.close()
 	nPub := 40000
-	nFol := 4 + idx%3*6
+	nFol := 3 + idx%3*2 // 3, 5 or 7 followers: more only makes them fight over cache lines
 	var pubErr error
 	pubDone := make(chan struct{})
 	go func() {
@@ -1179,7 +1261,8 @@ func runFollow(cfg *RunCfg, rep *Reporter, cov *Cov, idx int) {
 	}
 	results := make(chan res, nFol)
 	for f := 0; f < nFol; f++ {
-		byKey := opts.KeyIndex && f%2 == 1
+		// by-key followers only with small segments: ConsumeByKey walks every position of the key in a segment
+		byKey := opts.KeyIndex && f%2 == 1 && opts.Rollover <= 20000
 		go func() {
 			var r res
 			cursor := int64(0)
@@ -1209,6 +1292,9 @@ func runFollow(cfg *RunCfg, rep *Reporter, cov *Cov, idx int) {
 				}
 				if len(ms) == 0 {
 					r.caught++
+					if r.caught%4 == 0 {
+						runtime.Gosched()
+					}
 					if nx != cursor {
 						r.fail = fmt.Sprintf("consume:unexplained-gap\tConsume(%d) returned no messages and next offset %d: the messages in between were skipped although nothing was deleted", cursor, nx)
 						break
